@@ -43,6 +43,7 @@ type fAdapterTransport struct {
 	isOpen             bool
 	mu                 sync.RWMutex
 	closeSignal        chan struct{}
+	readLoopDone       chan struct{}
 	closeChan          chan error
 	monitorCloseSignal chan<- error
 	registry           fRegistry
@@ -82,7 +83,12 @@ func (f *fAdapterTransport) Open() error {
 	// error) must not be seen by the next incarnation.
 	closeSignal := make(chan struct{}, 1)
 	f.closeSignal = closeSignal
-	go f.readLoop(closeSignal)
+	readLoopDone := make(chan struct{})
+	f.readLoopDone = readLoopDone
+	go func() {
+		defer close(readLoopDone)
+		f.readLoop(closeSignal)
+	}()
 	f.isOpen = true
 	f.closeChan = make(chan error, 1)
 	return nil
@@ -140,7 +146,22 @@ func (f *fAdapterTransport) readFrame(framedTransport *TFramedTransport) ([]byte
 func (f *fAdapterTransport) IsOpen() bool {
 	f.mu.RLock()
 	defer f.mu.RUnlock()
-	return f.isOpen && f.transport.IsOpen()
+	if !f.isOpen {
+		return false
+	}
+	select {
+	case <-f.readLoopDone:
+		// No read loop is using the underlying transport: ask it.
+		return f.transport.IsOpen()
+	default:
+		// The read loop has a Read pending on the underlying transport and
+		// closes this transport as soon as that Read fails, so it is the
+		// connectivity check. Asking the underlying transport here can wait
+		// for that pending Read (thrift's TSocket.IsOpen reads from the
+		// socket) while holding the lock: IsOpen, the monitor's sanity check
+		// and every later Close() would hang for as long as the peer is silent.
+		return true
+	}
 }
 
 // Close closes the transport.
